@@ -55,6 +55,7 @@ Record payload := {
   p_etm : bool;
   p_ems : bool;
   p_sni : Z;
+  p_srp : Z;       (* SRP user name (payload version 3, /repo 19b1cb2; absent before: finding C13-5) *)
   p_origin : Z     (* ghost: index of the connection whose full handshake authenticated this state *)
 }.
 
@@ -70,10 +71,10 @@ Definition sess_with_sid (s : sess) (sid : Z) : sess :=
      s_ems := s_ems s; s_etm := s_etm s; s_sni := s_sni s; s_srp := s_srp s; s_ccert := s_ccert s;
      s_origin := s_origin s |}.
 
-(* _ticket_to_session: the session rebuilt from a decrypted ticket (no SRP user, no ID) *)
+(* _ticket_to_session: the session rebuilt from a decrypted ticket *)
 Definition sess_of_payload (p : payload) (sid : Z) : sess :=
   {| s_sid := sid; s_ms := p_ms p; s_ver := p_ver p; s_suite := p_suite p; s_hash := p_hash p;
-     s_ems := p_ems p; s_etm := p_etm p; s_sni := p_sni p; s_srp := 0; s_ccert := p_ccert p;
+     s_ems := p_ems p; s_etm := p_etm p; s_sni := p_sni p; s_srp := p_srp p; s_ccert := p_ccert p;
      s_origin := p_origin p |}.
 
 (* server configuration (HandshakeSettings + handshakeServer arguments) *)
@@ -263,6 +264,10 @@ Fixpoint cache_invalidate (sid : Z) (st : list centry) : list centry :=
 (* ---- server: TLS <= 1.2 resumption decision (_serverGetClientHello) ---------- *)
 Definition consistency (s : sess) (o : src) (h : hello) : sdec :=
   if negb (zmem (s_suite s) (h_suites h)) then SAbort illegal_parameter
+  (* /repo 19b1cb2: a ticket without an SRP user name offered with an SRP hello is declined; before that
+     commit no ticket carried a user name and this case ended in handshake_failure (finding C13-5) *)
+  else if nz (h_srp h) && negb (nz (s_srp s)) && (match o with ByTicket _ | ByBoth _ => true | _ => false end)
+       then SFull
   else if nz (h_srp h) && (negb (nz (s_srp s)) || negb (h_srp h =? s_srp s)) then SAbort handshake_failure
   else if nz (h_sni h) && (negb (nz (s_sni s)) || negb (h_sni h =? s_sni s)) then SAbort handshake_failure
   else if s_etm s && negb (h_etm h) then SAbort illegal_parameter
@@ -450,7 +455,7 @@ Definition conn_delta (w : world) (cp : cparams) (sv : server) : delta :=
                        s_origin := origin |} in
         let pl := {| p_ms := rms; p_ver := 4; p_suite := o_fsuite cp; p_hash := o_fhash cp;
                      p_created := created now; p_ccert := ccert; p_etm := false; p_ems := true;
-                     p_sni := h_sni h; p_origin := origin |} in
+                     p_sni := h_sni h; p_srp := 0; p_origin := origin |} in
         let issue := nonempty (sv_keys cfg) && (0 <? sv_count cfg) in
         let key := hd 0 (sv_keys cfg) in
         let tks := if issue then mk_tickets (Z.to_nat (sv_count cfg)) key (fresh + 2) pl (sv_life cfg) now
@@ -512,7 +517,7 @@ Definition conn_delta (w : world) (cp : cparams) (sv : server) : delta :=
             let key := hd 0 (sv_keys cfg) in
             let pl := {| p_ms := ms; p_ver := v; p_suite := o_fsuite cp; p_hash := o_fhash cp;
                          p_created := created now; p_ccert := ccert; p_etm := etm; p_ems := ems;
-                         p_sni := h_sni h; p_origin := ci |} in
+                         p_sni := h_sni h; p_srp := h_srp h; p_origin := ci |} in
             let tks := if issue then mk_tickets 1 key (fresh + 3) pl (sv_life cfg) now else [] in
             let cview := {| s_sid := sid; s_ms := ms; s_ver := v; s_suite := o_fsuite cp; s_hash := o_fhash cp;
                             s_ems := ems; s_etm := etm; s_sni := cp_sni cp; s_srp := cp_srp cp;
